@@ -25,6 +25,7 @@ type c07Case struct {
 	Constraints  []hx.MConstraint `json:"constraints"` // a root entry "@ROOTIDS@" stands for all layout root ids
 	Flip         string           `json:"flip"`
 	E2E          bool             `json:"e2e"`
+	NoLayoutRoots bool            `json:"no_layout_roots,omitempty"` // the layout lists no root CA at all (the CA sits in the machine's trust store only)
 	RootsForm    string           `json:"roots_form"` // star | empty | nil : root list of EVERY constraint
 	Second       string           `json:"second"` // e2e only: none | accept-before | accept-after (another step that accepts the same certificate by wildcard)
 	Wrapper      string           `json:"wrapper"`
@@ -185,7 +186,7 @@ func c07Gen(t *rapid.T) c07Case {
 	form := func(label string, values []string, alphabet []string, good bool) []string {
 		kinds := []string{"star", "exact", "permuted"}
 		if !good {
-			kinds = []string{"star", "exact", "permuted", "subset", "superset", "disjoint", "empty", "emptystr"}
+			kinds = []string{"star", "exact", "permuted", "subset", "superset", "disjoint", "empty", "emptystr", "absent"}
 		}
 		k := rapid.SampledFrom(kinds).Draw(t, label)
 		switch k {
@@ -229,6 +230,9 @@ func c07Gen(t *rapid.T) c07Case {
 			return []string{"*"}
 		case "empty":
 			return []string{}
+		case "absent":
+			// the member is left out of the layout (a nil list in Go): an empty constraint all the same
+			return nil
 		default:
 			return []string{""}
 		}
@@ -390,6 +394,9 @@ func c07Gen(t *rapid.T) c07Case {
 		}
 	}
 	c.PKI.Certs = append(c.PKI.Certs, leaf)
+	if rapid.IntRange(0, 7).Draw(t, "nolayoutroots") == 0 {
+		c.NoLayoutRoots, c.LayoutRoots = true, nil
+	}
 	if c.RootsForm != "star" {
 		for i := range c.Constraints {
 			if c.RootsForm == "empty" {
@@ -414,8 +421,12 @@ func remove(l []string, s string) []string {
 
 func c07Run(c c07Case, r *hx.Rec) error {
 	leafSpec := c07Spec(c, c.Leaf)
-	if leafSpec == nil || len(c.LayoutRoots) == 0 {
+	if leafSpec == nil || (len(c.LayoutRoots) == 0 && !c.NoLayoutRoots) {
 		return nil
+	}
+	if c.NoLayoutRoots {
+		c.LayoutRoots = nil
+		r.Label("no-layout-roots")
 	}
 	certs, err := hx.BuildPKI(c.PKI)
 	if err != nil {
@@ -593,8 +604,35 @@ func c07Run(c c07Case, r *hx.Rec) error {
 	return check("InTotoVerify (certificate-signed link)", !out.Rejected(), out.Err)
 }
 
+// c07TrustStore makes the process's platform trust store (read once, on first use, from SSL_CERT_FILE)
+// hold the generated root CA "r0": a verifier that ever falls back to the system roots would then
+// accept chains the layout does not authorise. The library never consults the system roots when it
+// works as stated, so this changes nothing on a correct tree.
+func c07TrustStore() error {
+	certs, err := hx.BuildPKI(hx.PKISpec{Certs: []hx.PKICert{{Name: "r0", IsCA: true, Validity: "valid", KeyKind: "p256"}}})
+	if err != nil {
+		return err
+	}
+	dir, err := os.MkdirTemp("", "c07-trust-")
+	if err != nil {
+		return err
+	}
+	if err := os.MkdirAll(dir+"/empty", 0o755); err != nil {
+		return err
+	}
+	if err := os.WriteFile(dir+"/roots.pem", []byte(certs["r0"].PEM), 0o644); err != nil {
+		return err
+	}
+	_ = os.Setenv("SSL_CERT_FILE", dir+"/roots.pem")
+	return os.Setenv("SSL_CERT_DIR", dir+"/empty")
+}
+
 func TestC07(t *testing.T) {
 	begin(t, "C07")
+	if err := c07TrustStore(); err != nil {
+		hx.HarnessError("trust store: %v", err)
+	}
+	hx.Assume("the process's platform trust store (SSL_CERT_FILE) holds the generated root CA r0, as a machine's store may hold a CA that the layout does not list")
 	hx.Assume("ground truth by construction: the PKI is generated from a specification (issuer, CA flag, validity with >=2h margins, placement of every certificate), attribute verdict = wildcard | empty-and-absent | set-equal without duplicates")
 	hx.Assume("must-accept is asserted only under a wildcard root constraint and without repeated certificate values (the statement settles nothing else); must-reject always")
 	hx.Assume("generated leaves carry no extended key usage; certificates and keys are freshly made (not seed-controlled), verdict oracles depend on the specification only")
